@@ -9,6 +9,7 @@ import re
 from engine.expr import Ex, norm, show, walk, alts
 from engine.mir import AnchorLost, callee_matches
 from engine.query import calls_matching, where
+from engine.paths import paths, outcome
 from rules.shared_codec import tokens
 from rules import C06
 
@@ -34,18 +35,24 @@ def who_rules(facts, rep):
     return ok
 
 
+ENC = r"(ZipFile::<'a>|ZipStreamFileMetadata)::enclosed_name$"
+
+
 def _validated_join(e, base_pred):
-    """is e == Path::join(base, ok(ok_or(<entry>.enclosed_name(), Err))) (possibly behind parent()/Some payload)?  returns (ok, entry_expr)"""
+    """is e == Path::join(base, <the Some payload of <entry>.enclosed_name()>) (possibly behind parent()/Some payload)?  The payload is
+    spelled `enclosed_name().ok_or(Err)?` or taken by a match on the Option.  returns (ok, entry_expr)"""
     for x in walk(e):
         if x[0] == "call" and x[1].endswith("Path::join") and len(x[2]) == 2:
             base, p = x[2]
             if not base_pred(base):
                 continue
-            if p[0] == "ok" and p[1][0] == "call" and p[1][1].endswith("Option::<T>::ok_or") and p[1][2][0][0] == "call" and \
-                    re.search(r"(ZipFile::<'a>|ZipStreamFileMetadata)::enclosed_name$", p[1][2][0][1]):
-                errv = p[1][2][1]
-                if any(y[0] == "agg" and y[1] in ("adt:InvalidArchive",) for y in walk(errv)):
-                    return True, p[1][2][0][2][0]
+            if p[0] != "ok" or p[1][0] != "call":
+                continue
+            c = p[1]
+            if c[1].endswith("Option::<T>::ok_or") and c[2][0][0] == "call" and re.search(ENC, c[2][0][1]):
+                return True, c[2][0][2][0]
+            if re.search(ENC, c[1]):
+                return True, c[2][0]
     return False, None
 
 
@@ -100,12 +107,35 @@ def prov_rules(facts, rep):
                             "(an unsafe name would be written outside the target, or not refused)" % (nm, show(p)[:200]))
         ok &= rep.check(len(entries) <= 1, rule, "same-entry@%s" % f.path.split("::")[-1], where(f, f.span), "all paths derive from the entry being extracted",
                         "paths derive from different entries: %s" % sorted(entries))
-        # a None from the accessor returns Err before any fs call: the ok_or(..)? is evaluated before (dominates) every fs call
-        oks = calls_matching(f, r"Option::<T>::ok_or$")
-        fsb = [bi for bi, t in f.calls() if callee_matches(t, FS_MUT)]
-        good = bool(oks) and all(f.dominates(oks[0][0], b) for b in fsb)
+        # a None from the accessor returns Err(InvalidArchive) and no filesystem call runs on such a path; on every path with a
+        # filesystem call the accessor's answer was tested (and was Some) *before* the first such call of that iteration
+        A_ENC = r"^discr\((Try::branch\(Option::ok_or\()?(ZipFile|ZipStreamFileMetadata)::enclosed_name\("
+        ps = paths(f, max_loop=1)
+        good = True
+        n_rej = 0
+        for p in ps:
+            marks = [i for i, (a, v) in enumerate(p["decisions"]) if a == "#iter"]
+            fs_pos = [pos for e_, pos in zip(p["effects"], p["epos"]) if re.search(FS_MUT, e_[1])]
+            encs = [(v, pos, a) for (a, v), pos in zip(p["decisions"], p["dpos"]) if a != "#iter" and re.search(A_ENC, a)]
+            # accept value: Continue (0) of `ok_or(..)?`, Some (1) of a match on the Option
+            acc = [(pos, (v == 0) if "Try::branch" in a else (v == 1)) for v, pos, a in encs]
+            iter_starts = [0] + [p["dpos"][i] for i in marks]
+            for fp in fs_pos:
+                start = max(x for x in iter_starts if x <= fp)
+                mine = [ok_ for pos, ok_ in acc if start <= pos < fp]
+                if not mine or not all(mine):
+                    good = False
+            rej = [pos for pos, ok_ in acc if not ok_]
+            if rej:
+                n_rej += 1
+                o = outcome(p)
+                # nothing touches the filesystem after the refusal, and the caller gets the error
+                if any(fp > rej[0] for fp in fs_pos) or o[0] not in ("Err", "ErrProp") or \
+                        not any(y[0] == "agg" and y[1] == "adt:InvalidArchive" for y in walk(o[1])):
+                    good = False
+        good = good and n_rej >= 1
         ok &= rep.check(good, rule, "refuse-before-write@%s" % f.path.split("::")[-1], where(f, f.span),
-                        "the unsafe-name error is raised before any filesystem call", "a filesystem call can run before the name has been validated")
+                        "the unsafe-name error is raised before any filesystem call", "a filesystem call can run before the name has been validated, or an unsafe name is not refused with InvalidArchive")
     rep.floor(rule, 11)
     return ok
 
